@@ -181,7 +181,7 @@ package p2p
 //@   modifies $now, header.VerifyError.SoftFailure, elems(int), F_conngater_BasicConnectionGater_RWMutex, F_conngater_BasicConnectionGater_blockedAddrs, F_conngater_BasicConnectionGater_blockedPeers, F_conngater_BasicConnectionGater_blockedSubnets, F_conngater_BasicConnectionGater_ds, F_p2p_peerStat_RWMutex, F_p2p_peerStat_peerID, F_p2p_peerStat_peerScore, F_p2p_peerStat_pruneDeadline
 //@   ensures [C18] at-most-one-chunk: sent("(*session).doRequest.headers") <= old(sent("(*session).doRequest.headers")) + 1
 //@   ensures [C18] at-most-one-requeue: sent("session.reqCh") <= old(sent("session.reqCh")) + 1
-//@   before prepareRequests [C18,C05] remainder-exact: arg0 == reqOrigin(req) + len(cur(h)) && arg1 == req.Amount - len(cur(h)) -- a short answer is followed up by a request for exactly what is missing
+//@   before prepareRequests [C18,C05] remainder-exact: arg0 == reqOrigin(req) + len(cur(h)) && arg1 == req.Amount - len(cur(h)) && arg2 >= arg1 -- a short answer is followed up by one request (chunk size not below the remainder, so element 0 is the whole of it) for exactly what is missing
 //@   ensures [C18] nothing-dropped: ctxDone(s.ctx) || sent("session.reqCh") + sent("(*session).doRequest.headers") >= old(sent("session.reqCh")) + old(sent("(*session).doRequest.headers")) + 1
 
 //@ chaninv (*session).getRangeByHeight.result(c): chunkOK(s.from, c)
